@@ -221,7 +221,21 @@ theorem pnft_handle_never_panics (c : AddrCodec) (now : Int) (s : Pnft.State) (m
 /-- Key-store files: `decryptKey` returns a key or an error for every file and password. -/
 theorem decryptKey_never_panics (k : Keystore.KeyFile) : (Keystore.decryptKey k).isPanic = false := by
   unfold Keystore.decryptKey
-  repeat (first | rfl | split)
+  by_cases h1 : k.version ≠ 3
+  · simp [h1, Outcome.isPanic]
+  by_cases h2 : k.cipher ≠ Keystore.cipherAlgorithm
+  · simp [h1, h2, Outcome.isPanic]
+  by_cases h3 : k.kdf ≠ Keystore.kdfName
+  · simp [h1, h2, h3, Outcome.isPanic]
+  by_cases h4 : k.prf ≠ Keystore.prfName
+  · simp [h1, h2, h3, h4, Outcome.isPanic]
+  by_cases h9 : k.dklen < 32 ∨ k.dklen > Keystore.maxDKLen
+  · simp only [h1, h2, h3, h4, h9, if_true, if_false]
+    repeat (first | rfl | split)
+  · have h10 : ¬ (k.dklen ≥ Keystore.allocLimit) := by
+      unfold Keystore.maxDKLen at h9; unfold Keystore.allocLimit; omega
+    simp only [h1, h2, h3, h4, h9, h10, if_false]
+    repeat (first | rfl | split)
 
 /-- the unrepaired function did panic: negative or short `dklen`, IV of the wrong size (F4) -/
 def f4Witness : Keystore.KeyFile :=
@@ -240,6 +254,11 @@ def f4Witness : Keystore.KeyFile :=
 
 example : (Keystore.decryptKeyOld f4Witness).isPanic = true := by decide
 example : (Keystore.decryptKey f4Witness).isPanic = false := by decide
+
+/-- before the repair of F22 an oversized `dklen` aborted the process (the length is allocated before the MAC is
+checked, so any file and any password do) -/
+example : (Keystore.decryptKeyF4 { f4Witness with dklen := 2 ^ 62 }).isPanic = true := by decide
+example : (Keystore.decryptKey { f4Witness with dklen := 2 ^ 62 }).isPanic = false := by decide
 
 /-- AOL single-item queries never panic (the key is encoded with `Encode`, F3). -/
 theorem aol_item_queries_never_panic (c : AddrCodec) (s : Aol.State) (o t w : Bytes) (n : Nat) :
